@@ -1158,19 +1158,40 @@ static int open_parsestd (hawk_t* hawk, hawk_sio_arg_t* arg, xtn_t* xtn, hawk_oo
 		}
 
 		case HAWK_PARSESTD_OOCS:
-			if (index >= 1 && is_psin_file(&xtn->s.in.x[index - 1])) hawk_sio_close (arg->handle);
+			if (index >= 1 && is_psin_file(&xtn->s.in.x[index - 1]))
+			{
+				/* the previous piece was a file. a string piece has neither a handle nor a path.
+				 * sf_in_open() looks at the handle of the including source upon @include */
+				hawk_sio_close (arg->handle);
+				arg->handle = HAWK_NULL;
+				arg->path = HAWK_NULL;
+			}
 			xtn->s.in.u.oocs.ptr = psin->u.oocs.ptr;
 			xtn->s.in.u.oocs.end = psin->u.oocs.ptr + psin->u.oocs.len;
 			return 0;
 
 		case HAWK_PARSESTD_BCS:
-			if (index >= 1 && is_psin_file(&xtn->s.in.x[index - 1])) hawk_sio_close (arg->handle);
+			if (index >= 1 && is_psin_file(&xtn->s.in.x[index - 1]))
+			{
+				/* the previous piece was a file. a string piece has neither a handle nor a path.
+				 * sf_in_open() looks at the handle of the including source upon @include */
+				hawk_sio_close (arg->handle);
+				arg->handle = HAWK_NULL;
+				arg->path = HAWK_NULL;
+			}
 			xtn->s.in.u.bcs.ptr = psin->u.bcs.ptr;
 			xtn->s.in.u.bcs.end = psin->u.bcs.ptr + psin->u.bcs.len;
 			return 0;
 
 		case HAWK_PARSESTD_UCS:
-			if (index >= 1 && is_psin_file(&xtn->s.in.x[index - 1])) hawk_sio_close (arg->handle);
+			if (index >= 1 && is_psin_file(&xtn->s.in.x[index - 1]))
+			{
+				/* the previous piece was a file. a string piece has neither a handle nor a path.
+				 * sf_in_open() looks at the handle of the including source upon @include */
+				hawk_sio_close (arg->handle);
+				arg->handle = HAWK_NULL;
+				arg->path = HAWK_NULL;
+			}
 			xtn->s.in.u.ucs.ptr = psin->u.ucs.ptr;
 			xtn->s.in.u.ucs.end = psin->u.ucs.ptr + psin->u.ucs.len;
 			return 0;
